@@ -343,9 +343,152 @@ def h_stop_race(kind: int, per: int, pre: int, off: int, adv: int, busy: bool, c
         ioloop.app_log = saved
 
 
+# ----------------------------------------------------------------------------------------------
+# timedelta periods that are NOT a whole number of milliseconds ("any period of at least a microsecond")
+U_POOL = (1, 999, 1000, 1001, 1500, 15625, 2000, 333333, 1000000, 1234567, 4999999, 5000000, 500, 62500, 7, 100001)
+TD_POOL = (1500, 15625, 999, 2000)                 # microseconds
+ADV_POOL = ((7, 10000), (2, 1000), (101, 10000))   # clock advances as exact rationals (num, den) seconds
+
+
+def _pick(pool, i):
+    """pool[i] by branching (keeps every value concrete on its path)"""
+    for j in range(len(pool) - 1):
+        if i == j:
+            return pool[j]
+    return pool[len(pool) - 1]
+
+
+def pre_init(ui: int, as_float: bool) -> bool:
+    return 0 <= ui < len(U_POOL)
+
+
+@harness(
+    pre=pre_init,
+    quick=dict(timeout=60, reach_timeout=30),
+    thorough=dict(timeout=60, reach_timeout=30),
+    nshards=1,
+    reach=["sub_millisecond", "non_integral_ms"],
+    units=["ioloop.PeriodicCallback.__init__ (timedelta -> milliseconds conversion)", "ioloop.PeriodicCallback._update_next"],
+    stubs=["the period u (microseconds) is chosen by the solver from a pool of 16 values (multiples and non-multiples of "
+           "1000, below 1 ms, up to 5 s) - datetime.timedelta is a C type and needs a concrete argument; for ALL integer "
+           "u >= 1 the conversion is proved by the extra init_conv on the source of __init__"],
+    outside=["timedelta periods outside the pool in this harness (see extra init_conv)"],
+)
+def h_init(ui: int, as_float: bool):
+    """callback_time (ms) keeps the exact period: callback_time == u/1000 (correctly rounded) and the period used by
+    _update_next is u microseconds within one rounding; equal to what the float form PeriodicCallback(cb, u/1000) gets."""
+    import datetime
+    from fractions import Fraction
+    u = _pick(U_POOL, ui)
+    if as_float:
+        pc = ioloop.PeriodicCallback(lambda: None, u / 1000)
+    else:
+        pc = ioloop.PeriodicCallback(lambda: None, datetime.timedelta(microseconds=u))
+    ct = pc.callback_time
+    assert ct > 0, "period of %d us became %r ms" % (u, ct)
+    assert ct == u / 1000, "callback_time %r ms is not the period %d us" % (ct, u)
+    err = abs(Fraction(ct) * 1000 - u)
+    assert err * (1 << 52) <= u, "callback_time %r ms is not within one rounding of %d us" % (ct, u)
+    if u < 1000:
+        reached("sub_millisecond")
+    if u % 1000:
+        reached("non_integral_ms")
+    # one scheduling step from a grid point lands on the next grid point (exact rational check)
+    pc._next_timeout = 1000
+    pc._update_next(1000)
+    got = Fraction(pc._next_timeout) - 1000
+    assert abs(got - Fraction(u, 1000000)) <= Fraction(1, 10 ** 9), \
+        "first deadline %r is not start + period (%d us)" % (pc._next_timeout, u)
+
+
+def pre_td(pi: int, steps: List[int]) -> bool:
+    if not (0 <= pi < len(TD_POOL) and len(steps) <= P.N):
+        return False
+    for a in steps:
+        if not 0 <= a < 2 * len(ADV_POOL):
+            return False
+    return in_shard(pi)
+
+
+@harness(
+    pre=pre_td,
+    quick=dict(N=3, timeout=120, reach_timeout=40),
+    thorough=dict(N=4, timeout=600, reach_timeout=60),
+    nshards=4,
+    reach=["td_skipped_periods", "td_many_runs"],
+    units=["ioloop.PeriodicCallback.__init__", "ioloop.PeriodicCallback.start", "ioloop.PeriodicCallback._run",
+           "ioloop.PeriodicCallback._schedule_next", "ioloop.PeriodicCallback._update_next", "ioloop.IOLoop.add_timeout"],
+    stubs=["VLoop/FakeAio virtual loop (vp/env.py); the clock starts at 1000 s and advances by 0.7 ms, 2 ms or 10.1 ms per "
+           "step (floats, concrete per path), either idle (timers fire one by one) or busy (clock jumps first: missed periods "
+           "must be skipped)", "period = timedelta(microseconds=u), u from {1500, 15625, 999, 2000}",
+           "grid / ordering checks in exact rational arithmetic (fractions) with tolerance 1e-9 s (ulp(1000 s) = 1.1e-13 s)"],
+    outside=["other periods in the run loop (kernel obligations and h_init cover the arithmetic)"],
+)
+def h_run_td(pi: int, steps: List[int]):
+    """run loop with a timedelta period that is not a whole number of ms: deadlines strictly increase, lie on
+    start + k*period, are not before now and at most one period after it; every invocation at/after its deadline."""
+    import datetime
+    from fractions import Fraction
+    log = _Log()
+    saved = ioloop.app_log
+    ioloop.app_log = log
+    try:
+        with install() as env:
+            u = _pick(TD_POOL, pi)
+            period = Fraction(u, 1000000)
+            tol = Fraction(1, 10 ** 9)
+            runs = []
+            deadlines = []
+            pc = ioloop.PeriodicCallback(lambda: runs.append(env.v.now), datetime.timedelta(microseconds=u))
+            real_call_at = env.loop.call_at
+
+            def rec_call_at(when, callback, *a, **kw):
+                deadlines.append((when, env.v.now))
+                return real_call_at(when, callback, *a, **kw)
+
+            env.loop.call_at = rec_call_at
+            t0 = Fraction(env.v.now)
+            pc.start()
+            for a in steps:
+                busy = a >= len(ADV_POOL)
+                num, den = _pick(ADV_POOL, a - len(ADV_POOL) if busy else a)
+                before = len(runs)
+                if busy:
+                    _busy_advance(env, num / den)     # the loop was blocked: the clock jumps past several periods
+                else:
+                    env.advance(num / den)
+                if busy and Fraction(num, den) > 2 * period and len(runs) == before + 1:
+                    reached("td_skipped_periods")
+            if len(runs) >= 5:
+                reached("td_many_runs")
+            prev = None
+            for when, at in deadlines:
+                w, n = Fraction(when), Fraction(at)
+                k = round((w - t0) / period)
+                assert k >= 1 and abs(w - (t0 + k * period)) <= tol, \
+                    "deadline %r is off the grid start + k*%d us" % (when, u)
+                assert w >= n - tol, "scheduled before the current time"
+                assert w <= n + period + tol, "scheduled more than one period ahead"
+                if prev is not None:
+                    assert w > prev, "deadline not later than the previous one"
+                prev = w
+            for i, r in enumerate(runs):
+                assert i < len(deadlines) and Fraction(r) >= Fraction(deadlines[i][0]), "invocation before its deadline"
+            live = env.v.pending_timers()
+            assert len(live) == 1 and live[0].when > env.v.now, "exactly one future timer must be armed"
+            assert not log.errors and not env.v.exc_contexts
+    finally:
+        ioloop.app_log = saved
+
+
 def _kernel_real(tier, seed):
     from harness import _native_c39
     return _native_c39.run_real(tier, seed)
+
+
+def _init_conv(tier, seed):
+    from harness import _native_c39
+    return _native_c39.run_init(tier, seed)
 
 
 def _kernel_fp_a(tier, seed):
@@ -365,6 +508,7 @@ def _kernel_fp_c(tier, seed):
 
 EXTRAS = {
     "kernel_real": dict(fn=_kernel_real, wall=300),
+    "init_conv": dict(fn=_init_conv, wall=300),
     "kernel_fp_a": dict(fn=_kernel_fp_a, wall=3000),
     "kernel_fp_b": dict(fn=_kernel_fp_b, wall=3000),
     "kernel_fp_c": dict(fn=_kernel_fp_c, wall=3000),
